@@ -216,7 +216,9 @@ def run_case(case):
         compare(np.array(second), ref, "forced-rescale", minlog)
     # history across the band: stretch, shrink back, stretch more
     if case["history"]:
-        for step, f in enumerate([1.6, 0.7, 1.0, 2.5, 1.0]):
+        # (in half of the histories also a collapse of the tree by six orders of magnitude and back: subtrees that were far above the
+        # threshold when rescaling was switched on now underflow)
+        for step, f in enumerate([1.6, 0.7, 1.0, 2.5, 1.0] + ([1e-6, 1.0, 1e-8, 30.0] if case["seed"] % 2 else [])):
             c2 = dict(c)
             c2["branch_lengths"] = (bl0 * f).tolist()
             ref2, minlog2 = ref_eval(c2)
